@@ -83,3 +83,68 @@ register(GenTraceHeader, 'read.py::SgzReader.gen_trace_header', ['C04', 'C07', '
 register(type('GenTraceHeader2d', (GenTraceHeader,), dict(two_d=True)), 'read.py::SgzReader.gen_trace_header', ['C04', 'C07', 'C09', 'C14'], [ALL2[0]], modes=('file',), tag='2d')
 register(GenTraceHeader, 'read.py::SgzReader.gen_trace_header', ['C17', 'C18'], [CFG_DEFAULT[3]], modes=('fault',))
 register(type('GenTraceHeader2dF', (GenTraceHeader,), dict(two_d=True)), 'read.py::SgzReader.gen_trace_header', ['C17', 'C18'], [ALL2[0]], modes=('fault',), tag='2d')
+
+
+# ---------------------------------------------------------------------------------------------
+# header-array cache (C15): what read_variant_headers leaves in the cache depends on the file and the arguments only
+
+from .c_read import footer_i32      # noqa: E402
+from pyvc.npmodel import MaskedArray      # noqa: E402
+
+
+class ReadVariantHeaders(ReadContract):
+    """read_variant_headers(include_padding, tracefields): afterwards variant_headers[k], for every requested stored field k, is the whole
+    footer array of k (one entry per grid position) -- or, on an irregular file without include_padding, its entries at the populated
+    positions in ascending order -- WHATEVER the cache held before (fresh / loaded earlier with either flag); never an AssertionError"""
+    structured = True
+    state = 'fresh'            # fresh | loaded_padded | loaded_masked
+    want_padding = False
+
+    def inputs(self, c):
+        g, rd = self.reader(c)
+        foot0 = add(g.data_start, mul(BLK, g.diskblocks))
+        stride = F(rd, 'padded_header_entry_length_bytes')
+        offs = {189: foot0, 193: add(foot0, stride)}
+        rd.fields['segy_traceheader_template'] = {k: TaggedInt(v, 'FileOffset') for k, v in offs.items()}
+        rd.fields['segy_traceheader_template'][5] = 7
+        rd.fields['stored_header_keys'] = [189, 193]
+        grid = mul(g.nI, g.nX)
+        full = {k: SArray((grid,), (lambda o: (lambda idx: footer_i32(add(o, mul(4, idx[0])))))(o), 'int32') for k, o in offs.items()}
+        spec_mask = SArray((grid,), lambda idx: ops_cmp('!=', footer_i32(add(foot0, mul(4, idx[0]))), 0), 'bool')
+        if self.state == 'loaded_padded':
+            rd.fields['variant_headers'] = {189: full[189]}
+            rd.fields['include_padding'] = True
+        elif self.state == 'loaded_masked':
+            rd.fields['mask'] = spec_mask
+            rd.fields['variant_headers'] = {189: MaskedArray(full[189], spec_mask)} if not self.structured else {189: full[189]}
+            rd.fields['include_padding'] = False
+        return dict(self=rd, _g=g, include_padding=self.want_padding, tracefields=None, _full=full, _mask=spec_mask)
+
+    def post(self, c, a, result):
+        g = a['self'].geo
+        vh = a['self'].fields.get('variant_headers')
+        c.ensure(mk_bool(isinstance(vh, dict) and set(int(k) for k in vh) == {189, 193}), 'cache_holds_exactly_the_stored_fields')
+        masked = (not self.structured) and (not self.want_padding)
+        j = c.sym_int('vj', lo=0, name='grid_position')
+        c.assume(lt(j, mul(g.nI, g.nX)))
+        for k in (189, 193):
+            arr = vh.get(k) if isinstance(vh, dict) else None
+            if masked:
+                ok = isinstance(arr, MaskedArray)
+                c.ensure(mk_bool(ok), f'field{k}.populated_entries_only')
+                if ok:
+                    c.ensure(eq(arr.arr.fn((j,)), a['_full'][k].fn((j,))) and eq(arr.arr.shape[0], mul(g.nI, g.nX)), f'field{k}.selected_from_the_whole_footer_array')
+                    c.ensure(Iff(arr.mask.fn((j,)), a['_mask'].fn((j,))), f'field{k}.selected_by_the_population_mask')
+            else:
+                ok = isinstance(arr, SArray)
+                c.ensure(mk_bool(ok), f'field{k}.one_entry_per_grid_position')
+                if ok:
+                    c.ensure(eq(arr.shape[0], mul(g.nI, g.nX)) and eq(arr.fn((j,)), a['_full'][k].fn((j,))), f'field{k}.is_the_footer_array')
+
+
+for _st in (True, False):
+    for _state in ('fresh', 'loaded_padded', 'loaded_masked'):
+        for _wp in (False, True):
+            _cls = type('ReadVariantHeaders', (ReadVariantHeaders,), dict(structured=_st, state=_state, want_padding=_wp))
+            register(_cls, 'read.py::SgzReader.read_variant_headers', ['C15', 'C08' if not _st else 'C04'], [CFG_DEFAULT[3]], modes=('file',),
+                     tag=f'{"regular" if _st else "irregular"},{_state},include_padding={_wp}')
